@@ -7,7 +7,7 @@
     changed in the same handler invocation that emits the transfers, and that a failure at any
     message position therefore leaves nothing behind.  The run-time half is exercised on the
     real code by fault injection at every outgoing message position (DESIGN.md §6 C15). *)
-From FM Require Import Atomic Reentrant.
+From FM Require Import Atomic Reentrant ReentrantDeep.
 
 (** Every outgoing message of an [execute] response is fire-and-forget (reply_on = never). *)
 Theorem C15_fire_and_forget : forall ms,
@@ -50,6 +50,13 @@ Theorem C15_reentrant_failure_no_effect : forall w o prog,
   ok (snd (rstep w o prog)) = false -> fst (rstep w o prog) = w.
 Proof. exact rstep_refused_no_effect. Qed.
 Print Assumptions C15_reentrant_failure_no_effect.
+
+(** The same with re-entrancy nested to any depth (model/ReentryDeep.v): whatever the hostile contract
+    did inside the transaction, [k] being any function at all. *)
+Theorem C15_deep_reentrant_failure_no_effect : forall k w o,
+  ok (snd (gstep k w o)) = false -> fst (gstep k w o) = w.
+Proof. exact gstep_refused_no_effect. Qed.
+Print Assumptions C15_deep_reentrant_failure_no_effect.
 
 Definition winit : world :=
   mkW (fun a d => if (a =? 1) || (a =? 2) then 1000 else 0) (fun t a => if (t =? 10) && (a =? 1) then 500 else 0) (fun _ _ => None)
